@@ -177,6 +177,7 @@ fn single(ctx: &Ctx, s: &U, k: &Known, is_base: bool, heavy: bool) {
     let sc = if canonical { real::scalar(s) } else { raw_scalar(s) };
     let want = expect_mul(s, k);
     let case = json!({"kind": "single", "scalar": s.hex(), "point": k.name});
+    ctx.case(&case.to_string());
     let key = format!("{}/{}", s.hex(), k.name);
     let rk = if canonical { Some(key.as_str()) } else { None };
     let p = k.real;
@@ -292,6 +293,7 @@ fn clamped(ctx: &Ctx, bytes: &[u8; 32], k: &Known, is_base: bool) {
     let s = U::from_le(&crate::model::mont::clamp(bytes));
     let want = expect_mul(&s, k);
     let case = json!({"kind": "clamped", "bytes": hex(bytes), "point": k.name});
+    ctx.case(&case.to_string());
     let key = format!("{}/{}", hex(bytes), k.name);
     let p = k.real;
     cmp(ctx, "ed.mul_clamped", guarded(|| p.mul_clamped(*bytes)), &want, &case, Some(&key));
@@ -332,6 +334,7 @@ fn multi(ctx: &Ctx, n: usize, pts: &[Known], scs: &[U], off: usize, none_at: Opt
     let rs: Vec<Scalar> = terms.iter().map(|(s, _)| real::scalar(s)).collect();
     let rp: Vec<EdwardsPoint> = terms.iter().map(|(_, k)| k.real).collect();
     let case = json!({"kind": "multi", "n": n, "offset": off, "none_at": none_at});
+    ctx.case(&case.to_string());
     let key = format!("n{}/o{}", n, off);
     if none_at.is_none() {
         cmp(ctx, "ed.multiscalar_mul", guarded(|| EdwardsPoint::multiscalar_mul(rs.iter(), rp.iter())), &want, &case, Some(&key));
@@ -361,6 +364,7 @@ fn multi(ctx: &Ctx, n: usize, pts: &[Known], scs: &[U], off: usize, none_at: Opt
         let (sp, dp) = rp.split_at(split);
         let (ss, ds) = rs.split_at(split);
         let c2 = json!({"kind": "multi_precomputed", "n": n, "offset": off, "split": split});
+        ctx.case(&c2.to_string());
         let r = guarded(|| {
             let pre = VartimeEdwardsPrecomputation::new(sp.iter());
             assert_eq!(pre.len(), split);
@@ -387,6 +391,7 @@ fn multi(ctx: &Ctx, n: usize, pts: &[Known], scs: &[U], off: usize, none_at: Opt
     if n >= 2 {
         ctx.eval(1);
         let c2 = json!({"kind": "multi_precomputed_short", "n": n, "offset": off});
+        ctx.case(&c2.to_string());
         let want2 = expect_sum(&terms[..n - 1]);
         match guarded(|| VartimeEdwardsPrecomputation::new(rp.iter()).vartime_multiscalar_mul(rs[..n - 1].iter())) {
             Ok(g) => {
@@ -503,6 +508,7 @@ pub fn run(ctx: &Ctx) {
             let want = expect_mul(a, k).add(&expect_mul(b, &base));
             let (ra, rb) = (if *a < lm { real::scalar(a) } else { raw_scalar(a) }, if *b < lm { real::scalar(b) } else { raw_scalar(b) });
             let case = json!({"kind": "double_base", "a": a.hex(), "b": b.hex(), "point": k.name});
+            ctx.case(&case.to_string());
             cmp(ctx, "ed.vartime_double_scalar_mul_basepoint", guarded(|| EdwardsPoint::vartime_double_scalar_mul_basepoint(&ra, &k.real, &rb)), &want, &case, None);
         });
     }
@@ -525,6 +531,7 @@ pub fn run(ctx: &Ctx) {
         use curve25519_dalek::traits::BasepointTable;
         pts.par_iter().for_each(|k| {
             let case = json!({"kind": "table_basepoint", "point": k.name});
+            ctx.case(&case.to_string());
             let p = k.real;
             cmp(ctx, "ed.table.radix16.basepoint", guarded(|| EdwardsBasepointTable::create(&p).basepoint()), &k.pt, &case, None);
             cmp(ctx, "ed.table.radix32.basepoint", guarded(|| EdwardsBasepointTableRadix32::create(&p).basepoint()), &k.pt, &case, None);
